@@ -112,7 +112,8 @@ Lemma same_set_cns s c : same_ctx s (set_cns c s). Proof. repeat split. Qed.
 Lemma same_set_nsd s c : same_ctx s (set_nsd c s). Proof. repeat split. Qed.
 Lemma same_set_frames s c : same_ctx s (set_frames c s). Proof. repeat split. Qed.
 Lemma same_set_heap s c : same_ctx s (set_heap c s). Proof. repeat split. Qed.
-#[global] Hint Resolve same_refl same_set_g same_set_cns same_set_nsd same_set_frames same_set_heap : same.
+Lemma same_set_scr s c : same_ctx s (set_scr c s). Proof. repeat split. Qed.
+#[global] Hint Resolve same_refl same_set_g same_set_cns same_set_nsd same_set_frames same_set_heap same_set_scr : same.
 
 (** functions of the form [fun s => match .. with .. => (r, s) | .. => m s end] *)
 Ltac split_state H :=
@@ -340,179 +341,48 @@ Section EvalSound.
   Qed.
 End EvalSound.
 
-(** * Instance 1: exec (exact-dict globals). No expression ever reaches the context. *)
-Lemma sound_store_var_plain E x v : gk E = GPlain -> sound (store_var E x v).
+(** * No store of the fragment reaches the context: STORE_NAME goes to the class namespace, the
+    per-evaluation scratch map (eval) or the globals copy (exec); STORE_GLOBAL to the dict part of
+    the per-evaluation namespace object (eval) or the globals copy (exec). *)
+Lemma sound_store_var E x v : sound (store_var E x v).
 Proof.
-  intros G. unfold store_var, store_global, store_name. rewrite G.
+  unfold store_var, store_global, store_name.
   intros s r s' H. split_state H; inversion H; subst; auto with same.
 Qed.
 
+Theorem sound_eval_all : forall fuel E e, sound (eval fuel E e).
+Proof.
+  intros fuel E e.
+  apply (sound_eval (fun _ _ => True)); auto; clear.
+  intros E x e1 _. split; [intros v; apply sound_store_var|exact I].
+Qed.
+
+Lemma sound_store_var_plain E x v : gk E = GPlain -> sound (store_var E x v).
+Proof. intros _. apply sound_store_var. Qed.
+
 Theorem sound_eval_plain : forall fuel E e, gk E = GPlain -> sound (eval fuel E e).
-Proof.
-  intros fuel E e G.
-  apply (sound_eval (fun E _ => gk E = GPlain)); try assumption; clear.
-  - intros E x e1 H. split; [intros v; apply sound_store_var_plain; assumption|assumption].
-  - intros E op a b H; split; assumption.
-  - intros; assumption.
-  - intros E ps body args H; split; [intros; assumption|exact H].
-  - intros E elt cl H. cbv zeta.
-    split; [intros c Hc; split; [assumption|destruct (cls E); exact H]|destruct (cls E); exact H].
-  - intros E f args H; split; [assumption|intros; assumption].
-  - intros E f args body H. exact H.
-  - intros; assumption.
-  - intros E l x H; split; assumption.
-Qed.
-
-(** * Instance 2: eval (the ChainMap-pretend-dict namespace) *)
-
-(** [safe gx e]: every [:=] of [e] outside lambda bodies targets a name of [gx] (the names the
-    compiler made global-explicit, whose stores are STORE_GLOBAL) *)
-Fixpoint safe (gx : list string) (e : expr) : bool :=
-  match e with
-  | XWalrus x e1 => mem x gx && safe gx e1
-  | XBin _ a b => safe gx a && safe gx b
-  | XList es => forallb (safe gx) es
-  | XLam _ _ args => forallb (safe gx) args
-  | XComp elt cl => safe gx elt && forallb (fun c => match c with (_, it) => safe gx it end) cl
-  | XCall f args => safe gx f && forallb (safe gx) args
-  | XAttr e1 _ => safe gx e1
-  | XAppend l x => safe gx l && safe gx x
-  | _ => true
-  end.
-
-Definition ok_chain (E : env) (e : expr) : Prop := infn E = true \/ safe (gex E) e = true.
-
-Lemma sound_store_global E x v : sound (store_global E x v).
-Proof. unfold store_global. destruct (gk E); apply sound_modify; auto with same. Qed.
-
-Lemma sound_store_var_chain E x v : infn E || mem x (gex E) = true -> sound (store_var E x v).
-Proof.
-  intros G. unfold store_var. rewrite G.
-  intros s r s' H. split_state H; try (inversion H; subst; auto with same; fail).
-  eapply sound_store_global; eauto.
-Qed.
-
-Lemma forallb_In {A} (f : A -> bool) l x : forallb f l = true -> In x l -> f x = true.
-Proof. intros H. rewrite forallb_forall in H. auto. Qed.
-
-Theorem sound_eval_chain : forall fuel E e, ok_chain E e -> sound (eval fuel E e).
-Proof.
-  intros fuel E e G.
-  apply (sound_eval ok_chain); try assumption; clear; unfold ok_chain; simpl.
-  - intros E x e1 [H|H].
-    + split; [intros v; apply sound_store_var_chain; now rewrite H|now left].
-    + apply andb_true_iff in H. destruct H as [H1 H2].
-      split; [intros v; apply sound_store_var_chain; rewrite H1; apply orb_true_r|now right].
-  - intros E op a b [H|H]; [split; now left|].
-    apply andb_true_iff in H. destruct H. split; now right.
-  - intros E es [H|H] e He; [now left|]. right. eapply forallb_In; eauto.
-  - intros E ps body args H. split; [|now left].
-    destruct H as [H|H]; intros e He; [now left|]. right. eapply forallb_In; eauto.
-  - intros E elt cl H. cbv zeta. destruct H as [H|H].
-    + split; [intros c Hc; split|]; destruct (cls E); now left.
-    + apply andb_true_iff in H. destruct H as [H1 H2]. split.
-      * intros [x it] Hc. pose proof (forallb_In _ _ _ H2 Hc) as H3. simpl in H3.
-        split; [now right|]. destruct (cls E); [now left|now right].
-      * destruct (cls E); [now left|now right].
-  - intros E f args [H|H]; [split; [|intros]; now left|].
-    apply andb_true_iff in H. destruct H as [H1 H2]. split; [now right|].
-    intros e He. right. eapply forallb_In; eauto.
-  - intros. now left.
-  - intros E e a [H|H]; [now left|now right].
-  - intros E l x [H|H]; [split; now left|].
-    apply andb_true_iff in H. destruct H. split; now right.
-Qed.
-
-(** a walrus-free expression is safe whatever the global-explicit set *)
-Fixpoint walrus_free (e : expr) : bool :=
-  match e with
-  | XWalrus _ _ => false
-  | XBin _ a b => walrus_free a && walrus_free b
-  | XList es => forallb walrus_free es
-  | XLam _ body args => walrus_free body && forallb walrus_free args
-  | XComp elt cl => walrus_free elt && forallb (fun c => match c with (_, it) => walrus_free it end) cl
-  | XCall f args => walrus_free f && forallb walrus_free args
-  | XAttr e1 _ => walrus_free e1
-  | XAppend l x => walrus_free l && walrus_free x
-  | _ => true
-  end.
-
-Section ExprInd.
-  Variable P : expr -> Prop.
-  Hypothesis HNone : P XNone.
-  Hypothesis HBool : forall b, P (XBool b).
-  Hypothesis HInt : forall z, P (XInt z).
-  Hypothesis HStr : forall s, P (XStr s).
-  Hypothesis HName : forall x, P (XName x).
-  Hypothesis HBin : forall op a b, P a -> P b -> P (XBin op a b).
-  Hypothesis HList : forall es, Forall P es -> P (XList es).
-  Hypothesis HLam : forall ps body args, P body -> Forall P args -> P (XLam ps body args).
-  Hypothesis HComp : forall elt cl, P elt -> Forall (fun c => P (snd c)) cl -> P (XComp elt cl).
-  Hypothesis HWalrus : forall x e, P e -> P (XWalrus x e).
-  Hypothesis HCall : forall f args, P f -> Forall P args -> P (XCall f args).
-  Hypothesis HAttr : forall e a, P e -> P (XAttr e a).
-  Hypothesis HAppend : forall l x, P l -> P x -> P (XAppend l x).
-
-  Fixpoint expr_ind' (e : expr) : P e :=
-    let fix go (l : list expr) : Forall P l :=
-      match l with [] => Forall_nil _ | x :: r => Forall_cons _ (expr_ind' x) (go r) end in
-    let fix goc (l : list (string * expr)) : Forall (fun c => P (snd c)) l :=
-      match l with
-      | [] => Forall_nil _
-      | (x, it) :: r => Forall_cons (x, it) (expr_ind' it : P (snd (x, it))) (goc r)
-      end in
-    match e with
-    | XNone => HNone
-    | XBool b => HBool b
-    | XInt z => HInt z
-    | XStr s => HStr s
-    | XName x => HName x
-    | XBin op a b => HBin op a b (expr_ind' a) (expr_ind' b)
-    | XList es => HList es (go es)
-    | XLam ps body args => HLam ps body args (expr_ind' body) (go args)
-    | XComp elt cl => HComp elt cl (expr_ind' elt) (goc cl)
-    | XWalrus x e1 => HWalrus x e1 (expr_ind' e1)
-    | XCall f args => HCall f args (expr_ind' f) (go args)
-    | XAttr e1 a => HAttr e1 a (expr_ind' e1)
-    | XAppend l x => HAppend l x (expr_ind' l) (expr_ind' x)
-    end.
-End ExprInd.
-
-Lemma forallb_Forall_imp {A} (P : A -> Prop) (f g : A -> bool) l :
-  Forall (fun x => f x = true -> g x = true) l -> forallb f l = true -> forallb g l = true.
-Proof.
-  induction 1 as [|x r Hx Hr IH]; simpl; [auto|].
-  intros H. apply andb_true_iff in H. destruct H as [H1 H2].
-  rewrite Hx, IH; auto.
-Qed.
-
-Lemma walrus_free_safe gx e : walrus_free e = true -> safe gx e = true.
-Proof.
-  induction e using expr_ind'; simpl; intros Hw; auto;
-    try (apply andb_true_iff in Hw; destruct Hw as [H1 H2]).
-  - rewrite IHe1, IHe2; auto.
-  - revert Hw. apply (forallb_Forall_imp (fun _ => True)). assumption.
-  - revert H2. apply (forallb_Forall_imp (fun _ => True)). assumption.
-  - rewrite IHe; auto. simpl.
-    revert H2. apply (forallb_Forall_imp (fun _ => True)).
-    match goal with HF : Forall _ cl |- _ => eapply Forall_impl; [|exact HF] end.
-    intros [x it]; simpl; auto.
-  - discriminate.
-  - rewrite IHe; auto. simpl. revert H2. apply (forallb_Forall_imp (fun _ => True)). assumption.
-  - rewrite IHe1, IHe2; auto.
-Qed.
+Proof. intros fuel E e _. apply sound_eval_all. Qed.
 
 (** * Top-level statements about [run_eval] *)
-Lemma same_after_set_frames s fs s' : same_ctx (set_frames fs s) s' -> same_ctx s s'.
+Lemma same_fresh_l s s' : same_ctx (fresh_namespace s) s' -> same_ctx s s'.
+Proof. unfold same_ctx. simpl. auto. Qed.
+Lemma same_fresh_r s s' : same_ctx s s' -> same_ctx s (fresh_namespace s').
 Proof. unfold same_ctx. simpl. auto. Qed.
 
-Theorem run_eval_safe mt b e s :
-  safe (gexs e) e = true -> same_ctx s (snd (run_eval mt b e s)).
+Theorem run_eval_frame mt b e s : same_ctx s (snd (run_eval mt b e s)).
 Proof.
-  intros H. unfold run_eval. destruct (wf_expr _ _ _ e); [|apply same_refl].
-  destruct (eval FUEL (eval_env mt b e) e (set_frames [] s)) as [r s'] eqn:E. simpl.
-  eapply (same_after_set_frames _ []).
-  eapply sound_eval_chain; [|exact E]. right. exact H.
+  unfold run_eval. destruct (wf_expr _ _ _ e); [|apply same_refl].
+  destruct (eval FUEL (eval_env mt b e) e (fresh_namespace s)) as [r s'] eqn:E. simpl.
+  apply same_fresh_r, same_fresh_l. eapply sound_eval_all; exact E.
+Qed.
+
+(** nothing of one evaluation's namespace object is left for the next *)
+Theorem run_eval_namespace_dropped mt b e s :
+  wf_expr [] false false e = true ->
+  scr (snd (run_eval mt b e s)) = [] /\ nsd (snd (run_eval mt b e s)) = [].
+Proof.
+  intros W. unfold run_eval. rewrite W.
+  destruct (eval FUEL (eval_env mt b e) e (fresh_namespace s)) as [r s']. split; reflexivity.
 Qed.
 
 (** * Statements of a py block *)
@@ -706,27 +576,28 @@ Qed.
 
 Theorem load_ctx_key E x v s :
   gk E = GChain -> cls E = false -> find_local x (frames s) false = LNotLocal ->
-  ns_get x (ctx s) = Some v -> load_var E x s = (Ok v, s).
+  ns_get x (scr s) = None -> ns_get x (ctx s) = Some v -> load_var E x s = (Ok v, s).
 Proof.
-  intros G C L H. unfold load_var. rewrite L.
-  unfold load_global, load_name, chain_get. rewrite G, C, H. destruct (_ || _); reflexivity.
+  intros G C L Sc H. unfold load_var. rewrite L.
+  unfold load_global, load_name, chain_get. rewrite G, C, Sc, H. destruct (_ || _); reflexivity.
 Qed.
 
 Theorem load_import E x v s :
   gk E = GChain -> cls E = false -> find_local x (frames s) false = LNotLocal ->
-  ns_get x (ctx s) = None -> ns_get x (imps s) = Some v -> load_var E x s = (Ok v, s).
+  ns_get x (scr s) = None -> ns_get x (ctx s) = None -> ns_get x (imps s) = Some v ->
+  load_var E x s = (Ok v, s).
 Proof.
-  intros G C L H I. unfold load_var. rewrite L.
-  unfold load_global, load_name, chain_get. rewrite G, C, H, I. destruct (_ || _); reflexivity.
+  intros G C L Sc H I. unfold load_var. rewrite L.
+  unfold load_global, load_name, chain_get. rewrite G, C, Sc, H, I. destruct (_ || _); reflexivity.
 Qed.
 
 Theorem load_builtin E x v s :
   gk E = GChain -> cls E = false -> find_local x (frames s) false = LNotLocal ->
-  ns_get x (ctx s) = None -> ns_get x (imps s) = None -> ns_get x (nsd s) = None ->
-  ns_get x (bi E) = Some v -> load_var E x s = (Ok v, s).
+  ns_get x (scr s) = None -> ns_get x (ctx s) = None -> ns_get x (imps s) = None ->
+  ns_get x (nsd s) = None -> ns_get x (bi E) = Some v -> load_var E x s = (Ok v, s).
 Proof.
-  intros G C L H I D B. unfold load_var. rewrite L.
-  unfold load_global, load_name, chain_get, from_builtins. rewrite G, C, H, I, D, B.
+  intros G C L Sc H I D B. unfold load_var. rewrite L.
+  unfold load_global, load_name, chain_get, from_builtins. rewrite G, C, Sc, H, I, D, B.
   destruct (_ || _); reflexivity.
 Qed.
 
@@ -753,10 +624,10 @@ Proof. destruct s; reflexivity. Qed.
 
 Theorem read_under_lambdas k v : forall xs n E s,
   gk E = GChain -> cls E = false -> ~ In k xs ->
-  find_local k (frames s) false = LNotLocal -> ns_get k (ctx s) = Some v ->
+  find_local k (frames s) false = LNotLocal -> ns_get k (scr s) = None -> ns_get k (ctx s) = Some v ->
   eval (length xs + S n) E (nest_lam xs (XName k)) s = (Ok v, s).
 Proof.
-  induction xs as [|x r IH]; intros n E s G C N L H.
+  induction xs as [|x r IH]; intros n E s G C N L Sc H.
   - simpl. apply load_ctx_key; assumption.
   - cbn [length nest_lam fold_right plus eval eval_list].
     fold (nest_lam r (XName k)).
@@ -799,9 +670,9 @@ Proof.
   repeat split. eapply nth_error_list_upd; eauto.
 Qed.
 
-Theorem eval_append_visible mt b c i d h k r items z :
+Theorem eval_append_visible mt b c i h k r items z :
   ns_get k c = Some (PRef r) -> nth_error h r = Some (OList items) -> k <> "__builtins__" ->
-  let res := run_eval mt b (XAppend (XName k) (XInt z)) (eval_state c i d h) in
+  let res := run_eval mt b (XAppend (XName k) (XInt z)) (eval_state c i h) in
   fst res = Ok PNone /\ ctx (snd res) = c
   /\ nth_error (heap (snd res)) r = Some (OList (items ++ [PInt z])).
 Proof.
@@ -810,19 +681,11 @@ Proof.
   { simpl. apply String.eqb_neq in N2. rewrite N2. reflexivity. }
   rewrite W. change FUEL with (S (S 78)).
   cbn [eval]. unfold bindM.
-  assert (L : load_var (eval_env mt b (XAppend (XName k) (XInt z))) k (set_frames [] (eval_state c i d h))
-              = (Ok (PRef r), set_frames [] (eval_state c i d h))).
+  assert (L : load_var (eval_env mt b (XAppend (XName k) (XInt z))) k (fresh_namespace (eval_state c i h))
+              = (Ok (PRef r), fresh_namespace (eval_state c i h))).
   { apply load_ctx_key; try reflexivity. exact H. }
-  rewrite L. cbn [check_list]. cbn [heap eval_state set_frames]. rewrite Hh. cbn [ret].
-  unfold heap_extend. cbn [heap eval_state set_frames]. rewrite Hh. cbn [ret fst snd ctx set_heap heap].
+  rewrite L. cbn [check_list]. cbn [heap eval_state fresh_namespace set_frames set_scr set_nsd]. rewrite Hh. cbn [ret].
+  unfold heap_extend. cbn [heap eval_state fresh_namespace set_frames set_scr set_nsd]. rewrite Hh.
+  cbn [ret fst snd ctx set_heap heap fresh_namespace set_frames set_scr set_nsd].
   repeat split. eapply nth_error_list_upd; eauto.
 Qed.
-
-(** * The leak *)
-Definition leak_ctx : ns := [("a", PInt 1)].
-Definition leak_expr : expr := XWalrus "y" (XBin BAdd (XName "a") (XInt 2)).
-
-Lemma eval_leak_witness :
-  ctx (snd (run_eval std_mods std_builtins leak_expr (eval_state leak_ctx [] [] [])))
-  = [("a", PInt 1); ("y", PInt 3)].
-Proof. vm_compute. reflexivity. Qed.
